@@ -1,0 +1,7 @@
+//go:build !verif
+
+// Package verifhook is a no-op unless the binary is built with `-tags verif`.
+package verifhook
+
+// Emit does nothing in regular builds.
+func Emit(event string, kv ...any) {}
